@@ -126,6 +126,8 @@ def _fold(node):
     import ast
     if isinstance(node, ast.Constant) and isinstance(node.value, (int, float)) and not isinstance(node.value, bool):
         return node.value
+    if isinstance(node, ast.Call) and not node.args and not node.keywords and (getattr(node.func, "attr", None) == "getrecursionlimit" or getattr(node.func, "id", None) == "getrecursionlimit"):
+        return 1000       # CPython's default recursion limit
     if isinstance(node, ast.UnaryOp) and isinstance(node.op, (ast.USub, ast.UAdd)):
         v = _fold(node.operand)
         return None if v is None else (-v if isinstance(node.op, ast.USub) else v)
